@@ -16,9 +16,14 @@ from vt.world import meta_of  # noqa: E402
 
 
 class TagScalar:
+    def __init__(self, label=None):
+        self.label = label
+
     def coerce_output(self, v):
         if not isinstance(v, str):
             raise TypeError("Tag out needs str")
+        if self.label is not None:
+            return "out(%s)@%s" % (v, self.label)
         return "out(%s)" % v
 
     def coerce_input(self, v):
@@ -55,24 +60,32 @@ class EvenScalar:
         return UNDEFINED_VALUE
 
 
-def _mk_resolver(T, fname):
+def _foreign(w, label, what):
+    if getattr(w, "label", None) != label:
+        w.anomalies.append(("registration-of-another-schema-name-used", what, "registered for %r, used by %r" % (label, getattr(w, "label", None))))
+
+
+def _mk_resolver(T, fname, label=None):
     async def resolver(parent, args, ctx, info):
+        _foreign(ctx["world"], label, "resolver %s.%s" % (T, fname))
         return await ctx["world"].resolve(T, fname, parent, args, ctx, info)
     resolver.__name__ = "r_%s_%s" % (T, fname)
     return resolver
 
 
-def _mk_source(T, fname):
+def _mk_source(T, fname, label=None):
     async def source(parent, args, ctx, info):
+        _foreign(ctx["world"], label, "subscription source %s.%s" % (T, fname))
         async for ev in ctx["world"].source(T, fname, parent, args, ctx, info):
             yield ev
     source.__name__ = "src_%s_%s" % (T, fname)
     return source
 
 
-def _mk_type_resolver(level, label):
+def _mk_type_resolver(level, label, blabel=None):
     def type_resolver(result, ctx, info, abstract_type):
         w = ctx["world"]
+        _foreign(w, blabel, "type resolver %s" % label)
         w.tr_calls.append((level, abstract_type.name, "%s.%s" % (info.parent_type.name, info.field_name)))
         m = meta_of(result)
         if m is None:
@@ -127,8 +140,9 @@ class RecDirective:
 class Bundle:
     """One cooked engine for one schema model."""
 
-    def __init__(self, schema, sdl=None, name_prefix="vt", **engine_opts):
+    def __init__(self, schema, sdl=None, name_prefix="vt", label=None, **engine_opts):
         self.s = schema
+        self.label = label
         self.sdl = sdl if sdl is not None else smodel.print_sdl(schema)
         self.name = boot.fresh_schema_name(name_prefix)
         self.opts = engine_opts
@@ -145,31 +159,34 @@ class Bundle:
                 Directive(d.name, schema_name=sn)(NoOpDirective())
         for t in s.types.values():
             if t.kind == "SCALAR":
-                Scalar(t.name, schema_name=sn)(EvenScalar() if t.impl == "even" else TagScalar())
+                Scalar(t.name, schema_name=sn)(EvenScalar() if t.impl == "even" else TagScalar(self.label))
             elif t.kind == "OBJECT":
                 for f in t.fields.values():
                     if f.resolver == "explicit":
                         kw = {}
                         if f.field_type_resolver:
-                            kw["type_resolver"] = _mk_type_resolver("fr", "%s.%s" % (t.name, f.name))
+                            kw["type_resolver"] = _mk_type_resolver("fr", "%s.%s" % (t.name, f.name), self.label)
                         if f.parent_concurrently is not True:
                             kw["parent_concurrently"] = f.parent_concurrently
                         if f.list_concurrently is not None:
                             kw["list_concurrently"] = f.list_concurrently
-                        Resolver("%s.%s" % (t.name, f.name), schema_name=sn, **kw)(_mk_resolver(t.name, f.name))
+                        Resolver("%s.%s" % (t.name, f.name), schema_name=sn, **kw)(_mk_resolver(t.name, f.name, self.label))
             elif t.kind in ("INTERFACE", "UNION") and t.type_resolver:
-                TypeResolver(t.name, schema_name=sn)(_mk_type_resolver("tr", t.name))
+                TypeResolver(t.name, schema_name=sn)(_mk_type_resolver("tr", t.name, self.label))
         if s.subscription:
             for f in s.types[s.subscription].fields.values():
-                Subscription("%s.%s" % (s.subscription, f.name), schema_name=sn)(_mk_source(s.subscription, f.name))
+                Subscription("%s.%s" % (s.subscription, f.name), schema_name=sn)(_mk_source(s.subscription, f.name, self.label))
 
     async def build(self):
         self.register()
+        return await self.cook()
+
+    async def cook(self):
         opts = dict(self.opts)
         if self.s.custom_default_resolver and "custom_default_resolver" not in opts:
             opts["custom_default_resolver"] = _default_resolver
         if self.s.custom_default_type_resolver and "custom_default_type_resolver" not in opts:
-            opts["custom_default_type_resolver"] = _mk_type_resolver("cd", "default")
+            opts["custom_default_type_resolver"] = _mk_type_resolver("cd", "default", self.label)
         e = Engine(self.sdl, schema_name=self.name, **opts)
         await e.cook()
         self.engine = e
